@@ -184,7 +184,8 @@ func Verif_C05_results_command_offset() {
 	verifAppend(out, first)
 	recorded := verifapi.Choose(4)
 	unit.UpdateBasicStatus(WorkStateRunning, "running", int64(recorded))
-	start := verifapi.Choose(4)
+	// offsets 0..3, and offsets far beyond the output (a number that text formatting renders in exponent form)
+	start := []int{0, 1, 2, 3, 1000000, 1048576}[verifapi.Choose(6)]
 	cfo := verifNewCFO("unix")
 	done := make(chan error, 1)
 	go func() {
@@ -213,7 +214,11 @@ func Verif_C05_results_command_offset() {
 	verifapi.Cover("results-command-returned")
 	verifapi.Assert("results-command-ends-once-the-unit-is-finished", finished && cerr == nil)
 	all := append(append([]byte{}, first...), rest...)
-	verifapi.Assert("client-receives-exactly-the-output-from-its-offset", verifapi.SameBytes(*cfo.streamed, all[start:]))
+	var want []byte
+	if start <= len(all) {
+		want = all[start:]
+	}
+	verifapi.Assert("client-receives-exactly-the-output-from-its-offset", verifapi.SameBytes(*cfo.streamed, want))
 	wk.cancel()
 	verifapi.Quiesce()
 }
